@@ -107,9 +107,9 @@ def make_method(rockit, m):
     grid = make_grid(rockit, m['grid'])
     kind = m['kind']
     if kind == 'ms':
-        return rockit.MultipleShooting(N=m['N'], M=m['M'], intg={'rk': 'rk', 'euler': 'expl_euler', 'next': 'rk'}[m['intg']], grid=grid)
+        return rockit.MultipleShooting(N=m['N'], M=m['M'], intg={'rk': 'rk', 'euler': 'expl_euler', 'next': 'rk'}.get(m['intg'], m['intg']), grid=grid)
     if kind == 'ss':
-        return rockit.SingleShooting(N=m['N'], M=m['M'], intg={'rk': 'rk', 'euler': 'expl_euler', 'next': 'rk'}[m['intg']], grid=grid)
+        return rockit.SingleShooting(N=m['N'], M=m['M'], intg={'rk': 'rk', 'euler': 'expl_euler', 'next': 'rk'}.get(m['intg'], m['intg']), grid=grid)
     if kind == 'dc':
         return rockit.DirectCollocation(N=m['N'], M=m['M'], degree=m['degree'], scheme=m['scheme'], grid=grid)
     raise ValueError(kind)
